@@ -30,7 +30,7 @@ CLAIMED = {
              "length by a constant <= 32 and the natural-number accumulator by 31 bits; that allocations sized by decoded "
              "numbers are clamped; that the value decoders treat the end of the witness stream as an error wherever they pull a bit "
              "straight from the iterator (None reaches only error exits, never a 0 bit); and that recursion reachable from the decoders "
-             "is reviewed. The IHR rule holds for an explicit loop or an iterator adaptor with a verdict, in decode or a private helper. Reports the genuine input-depth "
+             "is reviewed; and that the Converter methods of the decode route never unwrap/expect a value that comes from their arguments (C02.nopanic). The IHR rule holds for an explicit loop or an iterator adaptor with a verdict, in decode or a private helper. Reports the genuine input-depth "
              "recursion F-REC-UNIFY as a known finding. Does not decide totality in general nor re-encoding equality.",
         note=TRUST + "Assumes PostOrderIter's index bookkeeping (C18) and the bit reader's arithmetic (C13), which are not decided.",
         design="3/C02"),
@@ -60,7 +60,7 @@ CLAIMED = {
              "finalise to unit, that error display is depth/length bounded, that finalize_types pins the root to 1→1 (both ends), that a "
              "fallible unification in an Arrow constructor returns its error (unwrap only on a still unconstrained fresh variable), "
              "that Type::finalize writes every not-yet-complete bound back into the context before going on, that the error type is "
-             "built with a sharing traversal (not exponential for DAG-shaped types), "
+             "built with a sharing traversal (not exponential for DAG-shaped types), that the occurs check always enters a finished bound into its completed set, "
              "and that the context mutex is never re-entered while held. Reports F-REC-UNIFY (input-depth recursion) as a known finding. "
              "Soundness/principality of the union-bound unifier itself is not decided.",
         note=TRUST + "The typing-rule table in c04.py is transcribed from the Simplicity language definition.",
@@ -148,7 +148,7 @@ CLAIMED = {
         design="3/C11"),
     "C12": dict(
         technique="typestate rule over trait-impl producers: provenance of returned values + dominance of type tests; who-may-call",
-        text="Decides, for every producer of a witness value for a Redeem node (all Converter<_,Redeem>::convert_witness impls, "
+        text="Also decides that no conversion of a redeem-time program runs under NoSharing (shared witness nodes stay shared: C12.sharing). Decides, for every producer of a witness value for a Redeem node (all Converter<_,Redeem>::convert_witness impls, "
              "found by trait-impl query), that each Ok path returns a value built by a type-directed source applied to the "
              "node's finalised target type or an incoming value dominated by a successful is_of_type test; that RedeemData::new "
              "is only reachable from those converters; that expect/unwrap behind a type test is unreachable; and that no Redeem converter "
@@ -200,7 +200,7 @@ CLAIMED = {
         text="Decides the root-equality sentence by parametricity: cmr(), commit() and satisfy() build the program through the "
              "same node-type-generic fragments (each Policy arm calls the fragment of the same name, children in order; fragments "
              "use their node type only through the Constructible traits), instantiated at CMR algebras that agree constructor by "
-             "constructor (C09 premises re-evaluated), and conversion/pruning copy roots. Decides that sort() recurses in place "
+             "constructor (C09 premises re-evaluated), and conversion/pruning copy roots. Decides that sort() recurses in place and unconditionally (no comparison of the children reachable past a skipped recursive sort) "
              "into every composite child and then orders (found and repaired F-SORT). Satisfaction logic and execution are not decided.",
         note=TRUST + "Parametricity is used as a meta-theorem; satisfiability (and/or/threshold selection) is runtime behaviour.",
         design="3/C16"),
@@ -229,8 +229,8 @@ CLAIMED = {
              "the cached byte tested for zero (mask formula read off the MIR, all 8 counter values); read_u8 splices old cache << counter with "
              "the new byte >> (8 - counter) and advances the total by 8; byte_slice_window slices start/8 .. ceil(end/8); encoder and decoder "
              "of naturals agree on the frame (1 per level, closing 0, suffixes innermost first as (value, length), accumulator from the implicit "
-             "leading 1, bits appended at the low end). The guards of read_natural are decided under C02.bound. Magnitudes, truncation of "
-             "numbers >= 2^32 in the encoder and the recursion of the length prefix are not decided.",
+             "leading 1, bits appended at the low end). The guards of read_natural are decided under C02.bound. No narrowing integer cast occurs in the encoder. Magnitudes "
+             "and the recursion of the length prefix are not decided.",
         note=TRUST + "Assumes std's Range, Vec::pop and io::Write::write_all.",
         design="3/C13"),
     "C18": dict(
